@@ -17,6 +17,9 @@
 #include <fcppt/type_name.hpp>
 #include <fcppt/type_name_from_info.hpp>
 #include <fcppt/unique_ptr_dynamic_cast.hpp>
+#include <fcppt/unique_ptr_from_std.hpp>
+#include <fcppt/weak_ptr_impl.hpp>
+#include <fcppt/math/vector/atan2.hpp>
 #include <fcppt/unique_ptr_impl.hpp>
 #include <fcppt/unique_ptr_to_base.hpp>
 #include <fcppt/cast/dynamic_any.hpp>
@@ -43,6 +46,12 @@
 #include <fcppt/filesystem/stem.hpp>
 #include <fcppt/filesystem/strip_prefix.hpp>
 #include <fcppt/io/extract.hpp>
+#include <fcppt/math/vector/arithmetic.hpp>
+#include <fcppt/math/vector/at.hpp>
+#include <fcppt/math/vector/ceil_div_signed.hpp>
+#include <fcppt/math/vector/mod.hpp>
+#include <fcppt/math/vector/static.hpp>
+#include <fcppt/math/vector/comparison.hpp>
 #include <fcppt/io/get.hpp>
 #include <fcppt/io/peek.hpp>
 #include <fcppt/io/read.hpp>
@@ -464,6 +473,70 @@ std::optional<std::string> handle_env(std::vector<std::string> const &t)
     }
     return "bad-op";
   }
+  // ---- math::vector: component-wise all-or-nothing wrappers of the scalar helpers --------------------------------------
+  if ((op == "vdiv" || op == "vdivv" || op == "vmod" || op == "vmodv" || op == "vceildiv") && t.size() == 4)
+  {
+    bool const vec_rhs = op == "vdivv" || op == "vmodv";
+    auto const l = vh::int_list(t[2]);
+    std::vector<long long> const r = vec_rhs ? vh::int_list(t[3]) : std::vector<long long>{vh::to_ll(t[3])};
+    if ((l.size() != 2 && l.size() != 3) || (vec_rhs && r.size() != l.size()))
+      return "bad-op";
+    auto run = [&]<typename T, std::size_t N>(fcppt::tag<T>, std::integral_constant<std::size_t, N>) -> std::string {
+      using vec = fcppt::math::vector::static_<T, N>;
+      auto make = [](std::vector<long long> const &s) {
+        if constexpr (N == 2)
+          return vec{static_cast<T>(s[0]), static_cast<T>(s[1])};
+        else
+          return vec{static_cast<T>(s[0]), static_cast<T>(s[1]), static_cast<T>(s[2])};
+      };
+      auto show = [](fcppt::optional::object<vec> const &o) {
+        if (!o.has_value())
+          return std::string{"none"};
+        std::vector<long long> out;
+        out.push_back(static_cast<long long>(fcppt::math::vector::at<0>(o.get_unsafe())));
+        out.push_back(static_cast<long long>(fcppt::math::vector::at<1>(o.get_unsafe())));
+        if constexpr (N == 3)
+          out.push_back(static_cast<long long>(fcppt::math::vector::at<2>(o.get_unsafe())));
+        return "some " + vh::join(out);
+      };
+      vec const a{make(l)};
+      T const d{static_cast<T>(r[0])};
+      if (op == "vdiv")
+      {
+        std::string const res = show(a / d);
+        // aliasing: the divisor is a component of the vector itself
+        if (d == fcppt::math::vector::at<0>(a) && show(a / fcppt::math::vector::at<0>(a)) != res)
+          return "alias-fail";
+        return res;
+      }
+      if (op == "vdivv")
+      {
+        std::string const res = show(a / make(r));
+        if (make(r) == a && show(a / a) != res)
+          return "alias-fail";
+        return res;
+      }
+      if constexpr (std::is_unsigned_v<T>)
+      {
+        if (op == "vmod")
+          return show(fcppt::math::vector::mod(a, d));
+        if (op == "vmodv")
+          return show(fcppt::math::vector::mod(a, make(r)));
+      }
+      else
+      {
+        if (op == "vceildiv")
+          return show(fcppt::math::vector::ceil_div_signed(a, d));
+      }
+      return "bad-op";
+    };
+    auto dims = [&]<typename T>(fcppt::tag<T> tag) {
+      return l.size() == 2 ? run(tag, std::integral_constant<std::size_t, 2>{}) : run(tag, std::integral_constant<std::size_t, 3>{});
+    };
+    if (t[1] == "i32") return dims(fcppt::tag<std::int32_t>{});
+    if (t[1] == "u32") return dims(fcppt::tag<std::uint32_t>{});
+    return "bad-op";
+  }
   // ---- file system: every helper on every kind of path ------------------------------------------------------------
   if (op == "fopen" && t.size() == 3)
   {
@@ -679,6 +752,67 @@ std::optional<std::string> handle_env(std::vector<std::string> const &t)
     exact const e2{n};
     auto const back = fcppt::options::impl::is_flag(e2.view());
     return "s:" + n + " " + (back.has_value() ? std::string{back.get_unsafe().first.get() ? "short" : "long"} + " s:" + back.get_unsafe().second : std::string{"none"});
+  }
+  if (op == "uptrstd" && t.size() == 2)
+  {
+    // unique_ptr_from_std: a null std::unique_ptr becomes the empty optional, never a null fcppt::unique_ptr
+    std::unique_ptr<d3> p{t[1] == "null" ? nullptr : new d3{}};
+    if (t[1] != "null" && t[1] != "object")
+      return "bad-op";
+    d3 const *const raw = p.get();
+    auto const r = fcppt::unique_ptr_from_std(std::move(p));
+    if (r.has_value() && (r.get_unsafe().get_pointer() != raw || r.get_unsafe()->d3_tag != 3))
+      return "wrong-pointer";
+    return std::string{r.has_value() ? "some" : "none"} + (p == nullptr ? " source-null" : " source-kept");
+  }
+  if (op == "weaklock" && t.size() == 2)
+  {
+    // weak_ptr::lock: expired or never assigned gives the empty optional
+    fcppt::weak_ptr<d3> w;
+    fcppt::optional::object<fcppt::shared_ptr<d3>> keep;
+    if (t[1] == "live" || t[1] == "expired")
+    {
+      fcppt::shared_ptr<d3> s{fcppt::make_shared_ptr<d3>()};
+      w = fcppt::weak_ptr<d3>{s};
+      if (t[1] == "live")
+        keep = fcppt::optional::object<fcppt::shared_ptr<d3>>{s};
+    }
+    else if (t[1] != "empty")
+      return "bad-op";
+    auto const r = w.lock();
+    if (r.has_value() && r.get_unsafe()->d3_tag != 3)
+      return "wrong-pointer";
+    return (r.has_value() ? "some " : "none ") + std::to_string(w.use_count());
+  }
+  if (op == "atan2" && t.size() == 3)
+  {
+    // math::vector::atan2: nothing iff both components are zero (signed zeros included); never a domain error
+    auto val = [](std::string const &k) -> std::optional<double> {
+      if (k == "0") return 0.0;
+      if (k == "-0") return -0.0;
+      if (k == "1") return 1.0;
+      if (k == "-1") return -1.0;
+      if (k == "denorm") return std::numeric_limits<double>::denorm_min();
+      if (k == "-denorm") return -std::numeric_limits<double>::denorm_min();
+      if (k == "max") return std::numeric_limits<double>::max();
+      if (k == "inf") return std::numeric_limits<double>::infinity();
+      if (k == "-inf") return -std::numeric_limits<double>::infinity();
+      if (k == "nan") return std::numeric_limits<double>::quiet_NaN();
+      return std::nullopt;
+    };
+    auto const x = val(t[1]);
+    auto const y = val(t[2]);
+    if (!x || !y)
+      return "bad-op";
+    auto const r = fcppt::math::vector::atan2(fcppt::math::vector::static_<double, 2>{*x, *y});
+    auto const rf = fcppt::math::vector::atan2(fcppt::math::vector::static_<float, 2>{static_cast<float>(*x), static_cast<float>(*y)});
+    bool const float_zero = static_cast<float>(*x) == 0.0F && static_cast<float>(*y) == 0.0F; // denorm_min of double is 0 as float
+    if (rf.has_value() == float_zero)
+      return "float-disagrees";
+    if (!r.has_value())
+      return "none";
+    double const a = r.get_unsafe();
+    return std::string{"some "} + (a != a ? "nan" : (a >= -3.2 && a <= 3.2) ? "angle" : "out-of-range");
   }
   if (op == "cast" && t.size() == 3)
   {
